@@ -46,7 +46,9 @@ class DiscStorage:
 
     def persist(self, name):
         try:
-            file = self._lookup_path(name)
+            # search for "<hash>*<suffix>", because the name in the code
+            # contains no "*" if the complete hash is used (hash-length=64)
+            file = self._lookup_path(external(name)._path)
         except HashError:
             return
         if file.stem.endswith("-new"):
